@@ -4,7 +4,8 @@ The three methods are translated into definitions over the records of Model/Sett
 run_details = the compiled details), field by field:
 
   X = prefer_important(config.get('K'), defaults.F)      ->  rd_F := prefer_important (l_K c) (rd_F d)
-  X = none_or_T(config.get('K', defaults.F))             ->  rd_F := compile_plain (l_K c) (rd_F d)
+  X = none_or_T(_value_or_default(config, 'K', defaults.F)) ->  rd_F := compile_plain (l_K c) (rd_F d)
+                                                              (_value_or_default: the key's value unless None, then the default)
   defaults.F passed to the constructor                     ->  rd_F := rd_F d
   the argument order of the constructor call is matched with the parameters of __init__, each stored in the attribute of its name
 
@@ -28,6 +29,11 @@ ORDER = ["invocations", "iterations", "warmup", "min_iteration_time", "max_invoc
 
 def generate(repo):
     cls = find_class(parse_file(os.path.join(repo, "rebench", "model", "exp_run_details.py")), "ExpRunDetails")
+    from pyv import find_function
+    vd = find_function(parse_file(os.path.join(repo, "rebench", "model", "exp_run_details.py")), "_value_or_default")
+    if [a.arg for a in vd.args.args] != ["config", "key", "default"] or [dump(x) for x in strip_doc(vd.body)] != [
+            "value = config.get(key)", "if value is None:\n    return default", "return value"]:
+        raise Reject("_value_or_default: not `the value of the key unless it is None, then the default`")
     init = find_method(cls, "__init__")
     params = [a.arg for a in init.args.args][1:]
     stored = {}
@@ -52,9 +58,9 @@ def generate(repo):
                     and len(c.args[0].args) == 1 and isinstance(c.args[0].args[0], ast.Constant) and dump(c.args[1]).startswith("defaults."):
                 local[st.targets[0].id] = ("important", c.args[0].args[0].value, dump(c.args[1])[len("defaults."):])
             elif fn in ("none_or_int", "none_or_bool", "none_or_float", "none_or_dict") and len(c.args) == 1 and isinstance(c.args[0], ast.Call) \
-                    and dump(c.args[0].func) == "config.get" and len(c.args[0].args) == 2 and isinstance(c.args[0].args[0], ast.Constant) \
-                    and dump(c.args[0].args[1]).startswith("defaults."):
-                local[st.targets[0].id] = ("plain", c.args[0].args[0].value, dump(c.args[0].args[1])[len("defaults."):])
+                    and dump(c.args[0].func) == "_value_or_default" and len(c.args[0].args) == 3 and dump(c.args[0].args[0]) == "config" \
+                    and isinstance(c.args[0].args[1], ast.Constant) and dump(c.args[0].args[2]).startswith("defaults."):
+                local[st.targets[0].id] = ("plain", c.args[0].args[1].value, dump(c.args[0].args[2])[len("defaults."):])
             else:
                 raise Reject("compile: unsupported assignment " + dump(st)[:120])
         elif isinstance(st, ast.If) and dump(st.test).replace("(", "").startswith("env and not all") and len(st.body) == 1 and isinstance(st.body[0], ast.Raise) and not st.orelse:
